@@ -409,6 +409,15 @@ namespace
             if (m.finish() != md)
                 violate("C16/order", "timer %d (deadline %.17g) fired before a pending timer with deadline %.17g", id,
                         (double)m.finish(), (double)md);
+            // what the callback observes when it asks: the firing timer is still planned (its re-arm happens when the callback
+            // returns), every other timer is as the model says, the manager is not empty and the time to the next deadline is
+            // that of the model's pending set (the firing timer included: zero or overdue)
+            for (int i = 0; i < n; i++)
+                if (tim[i]->is_planned() != model[i].planned)
+                    violate("C16/is_planned", "inside the callback of timer %d: timer %d is_planned()=%d, model %d", id, i, (int)tim[i]->is_planned(), (int)model[i].planned);
+            if (mgrs[cur_mg]->empty()) violate("C16/empty", "inside the callback of timer %d its manager reports empty()", id);
+            else if (mgrs[cur_mg]->minimal_interval(now) != md - now)
+                violate("C16/minimal_interval", "inside the callback of timer %d: minimal_interval=%.17g, the model's nearest deadline is %.17g away", id, (double)mgrs[cur_mg]->minimal_interval(now), (double)(md - now));
             // scripted callback body
             Script &s = script[id];
             executing = id;
